@@ -160,10 +160,14 @@ def plan(tier, seed):
     for i in range(4):
         specs.append({"kind": "random", "n": 6000 if tier == "quick" else 60000,
                       "seed": common.seed_for(PROP, tier, seed, i)})
+    # + the repository's import/export tests, unedited, with the same contracts attached
+    specs.append(common.pytest_spec())
     return specs
 
 
 def run_shard(spec):
+    if spec["kind"] == "pytest":
+        return common.run_pytest_shard(spec, PROP, tests=["tests/import_export"])
     acc = common.new_acc()
     STATS["evals"] = 0
     if spec["kind"] == "exhaustive":
@@ -223,6 +227,8 @@ def floors(tier):
 
 
 def replay(doc):
+    if doc.get("kind") == "pytest":
+        return common.replay_pytest(doc, PROP)
     acc = common.new_acc()
     run_case(doc["kind"], doc["cols"], doc["required"], doc["ndim"], acc)
     return acc["violations"]
